@@ -681,6 +681,11 @@ func runWorker(r *workerRun, prop, tier string, seed int64, workdir string, time
 	if fl == "asan" {
 		cmd.Env = append(cmd.Env, "ASAN_OPTIONS=detect_leaks=0:abort_on_error=0:halt_on_error=1")
 	}
+	if prop != "C14" {
+		// the workloads of every other property are sequential per worker and many workers run side by side:
+		// few Ps per worker keep the per-P caches of sync.Pool (and with them the retained pool buffers) small
+		cmd.Env = append(cmd.Env, "GOMAXPROCS=4")
+	}
 	if fl == "gcstress" {
 		cmd.Env = append(cmd.Env, "GOGC=1", "GODEBUG=clobberfree=1")
 	}
